@@ -95,8 +95,16 @@ def judge(data, imports_only=False):
     except KeyError:
         return None, "unlabelled-module", 0
     try:
-        sev = check_safety(Pickled.load(data)).severity
+        p = Pickled.load(data)
+        sev = check_safety(p).severity
         rank = RANK[sev.name]
+        # the floor holds every time the verdict is asked, also on an object whose derived
+        # views are already cached
+        p.has_call, p.has_import
+        for _ in range(2):
+            again = check_safety(p).severity
+            if RANK[again.name] < rank:
+                sev, rank = again, RANK[again.name]
     except Exception:  # noqa: BLE001
         return None, "analysis-raised-or-refused", floor
     if rank < floor:
